@@ -159,3 +159,13 @@ pub fn is_self_attested(
 ) -> bool {
     crate::services::verifier::verif_hooks::is_self_attested(referent, info, self_attested_attrs)
 }
+
+#[cfg(feature = "w3c")]
+pub fn base64_encode(val: &[u8]) -> String {
+    crate::utils::base64::encode(val)
+}
+
+#[cfg(feature = "w3c")]
+pub fn base64_decode(val: &str) -> Result<Vec<u8>> {
+    crate::utils::base64::decode(val)
+}
